@@ -456,6 +456,9 @@ func (a *Adversary) Do(s *ByzSpec) {
 			if par(s, 0) == 1 {
 				proof, blk = a.bestProof(h, v, 0)
 			}
+			if par(s, 0) == 2 { // a block attached to a vote that carries no proof at all (no correct node ever sends that)
+				blk = a.block(h, par(s, 1))
+			}
 			vs := a.vote(b, h, v, proof)
 			a.inject("votes", &MsgSpec{Union: UVC, Vote: &vs, Block: blk}, 1<<uint(w.LeaderIdx(h, v)))
 		}
